@@ -25,7 +25,7 @@ func deref(t types.Type) types.Type {
 	if p, ok := t.Underlying().(*types.Pointer); ok {
 		return p.Elem()
 	}
-	panic(fmt.Sprintf("deref: not a pointer: %s", t))
+	panic(fmt.Sprintf("symgo: internal: deref: not a pointer: %s", t))
 }
 
 func constValue(c *ssa.Const) value {
@@ -73,7 +73,7 @@ func constValue(c *ssa.Const) value {
 			return string(rune(c.Int64()))
 		}
 	}
-	panic(fmt.Sprintf("constValue: %s", c))
+	panic(fmt.Sprintf("symgo: internal: constValue: %s", c))
 }
 
 func asInt64(x value) int64 {
@@ -101,7 +101,7 @@ func asInt64(x value) int64 {
 	case uintptr:
 		return int64(x)
 	}
-	panic(fmt.Sprintf("cannot convert %T to int64", x))
+	panic(fmt.Sprintf("symgo: internal: cannot convert %T to int64", x))
 }
 
 func zero(t types.Type) value {
@@ -263,7 +263,7 @@ func (m *Machine) slice(x, lo, hi, max value) value {
 		}
 		return []value(a)[l:h:mx]
 	}
-	panic(fmt.Sprintf("slice: unexpected X type: %T", x))
+	panic(fmt.Sprintf("symgo: internal: slice: unexpected X type: %T", x))
 }
 
 func (m *Machine) lookup(instr *ssa.Lookup, x, idx value) value {
@@ -298,7 +298,7 @@ func (m *Machine) lookup(instr *ssa.Lookup, x, idx value) value {
 		}
 		return x.b[i]
 	}
-	panic(fmt.Sprintf("unexpected x type in Lookup: %T", x))
+	panic(fmt.Sprintf("symgo: internal: unexpected x type in Lookup: %T", x))
 }
 
 var binTermOp = map[token.Token][2]Op{ // [unsigned, signed]
@@ -853,7 +853,7 @@ func (m *Machine) binop(op token.Token, t types.Type, x, y value) value {
 	case token.GEQ:
 		return m.binop(token.LEQ, t, y, x)
 	}
-	panic(fmt.Sprintf("invalid binary op: %T %s %T", x, op, y))
+	panic(fmt.Sprintf("symgo: internal: invalid binary op: %T %s %T", x, op, y))
 }
 
 func (m *Machine) notV(v value) value {
@@ -863,7 +863,7 @@ func (m *Machine) notV(v value) value {
 	case *Sym:
 		return wrap(m.F.Not(b.T), types.Bool)
 	}
-	panic(fmt.Sprintf("notV: %T", v))
+	panic(fmt.Sprintf("symgo: internal: notV: %T", v))
 }
 
 func (m *Machine) andV(a, b value) value {
@@ -905,7 +905,7 @@ func (m *Machine) eqnil(t types.Type, x, y value) value {
 		case []value:
 			return (x != nil) == (y.([]value) != nil)
 		}
-		panic(fmt.Sprintf("eqnil(%s): illegal dynamic type: %T", t, x))
+		panic(fmt.Sprintf("symgo: internal: eqnil(%s): illegal dynamic type: %T", t, x))
 	}
 	return m.equalsV(t, x, y)
 }
@@ -1090,7 +1090,7 @@ func (m *Machine) unop(instr *ssa.UnOp, x value) value {
 			return ^x
 		}
 	}
-	panic(fmt.Sprintf("invalid unary op %s %T", instr.Op, x))
+	panic(fmt.Sprintf("symgo: internal: invalid unary op %s %T", instr.Op, x))
 }
 
 func (m *Machine) typeAssert(instr *ssa.TypeAssert, itf iface) value {
@@ -1212,7 +1212,7 @@ func (m *Machine) callBuiltin(caller *frame, callpos token.Pos, fn *ssa.Builtin,
 			}
 			return len(x.buf)
 		default:
-			panic(fmt.Sprintf("len: illegal operand: %T", x))
+			panic(fmt.Sprintf("symgo: internal: len: illegal operand: %T", x))
 		}
 	case "cap":
 		switch x := args[0].(type) {
@@ -1228,7 +1228,7 @@ func (m *Machine) callBuiltin(caller *frame, callpos token.Pos, fn *ssa.Builtin,
 			}
 			return x.cap
 		default:
-			panic(fmt.Sprintf("cap: illegal operand: %T", x))
+			panic(fmt.Sprintf("symgo: internal: cap: illegal operand: %T", x))
 		}
 	case "min", "max":
 		x := args[0]
@@ -1532,5 +1532,5 @@ func sliceToArrayPointer(t_dst, t_src types.Type, x value) value {
 			}
 		}
 	}
-	panic(fmt.Sprintf("unsupported conversion: %s  -> %s, dynamic type %T", t_src, t_dst, x))
+	panic(fmt.Sprintf("symgo: internal: unsupported conversion: %s  -> %s, dynamic type %T", t_src, t_dst, x))
 }
